@@ -273,7 +273,7 @@ def _ob(name, fn, tier, timeout, **params):
 
 OBLIGATIONS = []
 for n in range(0, 10):
-    OBLIGATIONS.append(_ob('tm_len%d' % n, 'h_tm', 'quick' if n <= 6 else 'thorough', 240, n=n))
+    OBLIGATIONS.append(_ob('tm_len%d' % n, 'h_tm', 'quick' if n <= 8 else 'thorough', 400, n=n))
 OBLIGATIONS += [
     _ob('d8_len8', 'h_d8', 'quick', 300),
     _ob('d8_otherlen', 'h_d8_otherlen', 'quick', 120),
